@@ -44,7 +44,7 @@ class SegwitV0:
 
 @contract("btclib.script.sig_hash.taproot",
           types=dict(transaction="obj:Tx", input_index="int", prevouts="list[obj:TxOut;1..2]", hashtype="int[0..255]", ext_flag="int[0..1]",
-                     annex="oneof[const(b'')|bytes]", message_extension="oneof[const(b'')|bytes[37]]", precomputed="none"), props="C09", tier="thorough")
+                     annex="oneof[const(b'')|bytes]", message_extension="oneof[const(b'')|bytes[37]]", precomputed="none"), props="C09", tier="deep")
 class Taproot:
     """BIP341 SigMsg for the seven defined hash types (others refused), annex present/absent,
     key path / script path extension; 1..2 inputs and outputs"""
